@@ -901,19 +901,27 @@ def run_siblings_case(ctx, case):
   threads = case['threads']
   log = []
   issued = []                                 # {'f', 'worker', 'thread', 'pool', 'done'}
+  hold_rng = random.Random(case['sched_seed'] ^ 0x2545f491)
   thread_pool, in_run, using = {}, {}, {}     # by controlled thread index
   undercut = {}   # run (thread) -> the sibling run whose finally released the worker it uses
   belief = {i: set() for i in range(n_w)}
   workers = []
   for i in range(n_w):
     addr = f'sib_{uid}_{i}'
-    w = courier_worker.Worker(addr)
+    w = courier_worker.Worker(addr, max_parallelism=case.get('max_parallelism', 1))
 
     def on_issue(method, f, i=i):
       st = core.ACTIVE.me() if core.ACTIVE else None
       tid = st.idx if st else -1
       pi = thread_pool.get(tid)
-      issued.append({'f': f, 'worker': i, 'thread': tid, 'pool': pi, 'method': method})
+      issued.append({'f': f, 'worker': i, 'thread': tid, 'pool': pi, 'method': method,
+                     'from_run': bool(in_run.get(tid)),
+                     # most low-level calls stay in flight until every client is through
+                     # (never so many that the worker has no room left for a run())
+                     'hold': (not in_run.get(tid) and hold_rng.random() < 0.7
+                              and sum(1 for x in issued if x['worker'] == i and x['hold']
+                                      and not x['f'].done())
+                              < case.get('max_parallelism', 1) - 1)})
       log.append(('call', tid, pi, i, method))
       others = sorted(belief[i] - {pi})
       if in_run.get(tid) and others:
@@ -940,7 +948,8 @@ def run_siblings_case(ctx, case):
   orig_next_idle = courier_worker.WorkerPool.next_idle_worker
   saved_futures = courier_utils.futures
   courier_utils.futures = c20lib.sched_futures(saved_futures)
-  counters = {'handed_in_use': 0, 'probe_acquires': 0, 'runs': 0}
+  counters = {'handed_in_use': 0, 'probe_acquires': 0, 'runs': 0, 'lowlevel_calls': 0,
+              'run_finally_with_foreign_call_in_flight': 0}
 
   def me():
     st = core.ACTIVE.me() if core.ACTIVE else None
@@ -959,6 +968,9 @@ def run_siblings_case(ctx, case):
       if wi is None:
         return r
       from_run = bool(in_run.get(tid))
+      if from_run and any(x['worker'] == wi and not x['from_run'] and not x['f'].done()
+                          for x in issued):
+        counters['run_finally_with_foreign_call_in_flight'] += 1
       unconditional = not args and not kwargs
       # runs of the caller's own pool that were handed this worker and are not over
       siblings = sorted(t for t, u in using.items()
@@ -996,7 +1008,7 @@ def run_siblings_case(ctx, case):
           belief[wi].add(pi)
           # calls of run()s of OTHER pools still in flight on this worker
           busy = [x for x in issued if x['worker'] == wi and not x['f'].done()
-                  and x['pool'] is not None and x['pool'] != pi]
+                  and x['from_run'] and x['pool'] is not None and x['pool'] != pi]
           if busy:
             log.append(('VIOLATION', 'worker_used_by_two_pools', wi,
                         {'acquired_by_pool': pi,
@@ -1032,6 +1044,10 @@ def run_siblings_case(ctx, case):
   state = {'clients_done': 0}
   payload = lazy_fns.pickler.dumps(('done', 1))
   srv_rng = random.Random(case['sched_seed'] ^ 0x5bd1e995)
+
+  def answerable(x):
+    return not x['f'].done() and (not x['hold'] or state['clients_done'] == len(threads))
+
   try:
     def client(pi, ops):
       tid = me()
@@ -1051,6 +1067,11 @@ def run_siblings_case(ctx, case):
               in_run[tid] = False
               using.pop(tid, None)
               undercut.pop(tid, None)
+          elif op[0] == 'call':
+            # a low-level call that no pool operation issued (ignores capacity and lock);
+            # the remote side completes it at any point of the schedule
+            workers[op[1] % n_w].call(courier_method='slow')
+            counters['lowlevel_calls'] += 1
           elif op[0] == 'probe':
             w = workers[op[1] % n_w]
             if w.acquire_by(p):
@@ -1066,8 +1087,8 @@ def run_siblings_case(ctx, case):
       s = core.ACTIVE
       while True:
         s.block(lambda: state['clients_done'] == len(threads)
-                or any(not x['f'].done() for x in issued), 'remote.idle')
-        pend = [x for x in issued if not x['f'].done()]
+                or any(answerable(x) for x in issued), 'remote.idle')
+        pend = [x for x in issued if answerable(x)]
         if not pend:
           if state['clients_done'] == len(threads):
             return
@@ -1093,7 +1114,10 @@ def run_siblings_case(ctx, case):
   ctx.count('pool_runs_completed', counters['runs'])
   ctx.count('runs_handed_a_worker_in_use_by_a_sibling', counters['handed_in_use'])
   ctx.count('probe_acquires', counters['probe_acquires'])
-  ctx.case((runner.stable_hash(threads), n_w, sched.trace_hash()),
+  ctx.count('lowlevel_calls', counters['lowlevel_calls'])
+  ctx.count('run_finally_with_foreign_call_in_flight',
+            counters['run_finally_with_foreign_call_in_flight'])
+  ctx.case((runner.stable_hash(threads), n_w, case.get('max_parallelism', 1), sched.trace_hash()),
            n_p >= 2 and sched.line_preemptions >= 1)
   if not shared or 'threading' not in took:
     ctx.inconclusive_case('pools do not share the worker objects / shim missing', case)
@@ -1164,8 +1188,14 @@ def gen_run_siblings_case(rng):
       else:
         ops.append(['probe', rng.randrange(n_w), rng.randint(0, 2)])
     threads.append([pi, ops])
-  return {'mode': 'ownership', 'scenario': 'run_siblings', 'workers': n_w, 'n_pools': n_p,
+  case = {'mode': 'ownership', 'scenario': 'run_siblings', 'workers': n_w, 'n_pools': n_p,
           'threads': threads}
+  if rng.random() < 0.4:
+    # fourth seed round (C20d): workers with room for several calls and a thread of pool 0
+    # that issues low-level calls next to the run()s
+    case['max_parallelism'] = rng.randint(2, 3)
+    threads.append([0, [['call', rng.randrange(n_w)] for _ in range(rng.randint(1, 2))]])
+  return case
 
 
 # ---------------------------------------------------------------------------
